@@ -158,7 +158,9 @@ fn one(rng: &mut StdRng, k: usize) -> Item {
             match rng.gen_range(0..3) { 0 => dump[i] ^= 1 << rng.gen_range(0..8), 1 => dump[i] = 0xff, _ => { let j = (i + 4).min(dump.len()); for b in &mut dump[i..j] { *b = 0xff; } } }
         }
         if rng.gen_bool(0.2) { let cut = rng.gen_range(32..dump.len()); dump.truncate(cut); }
-        if rng.gen_bool(0.3) { if let Some(s) = symbols.values_mut().next() { let mut b = s.clone().into_bytes(); if !b.is_empty() { let i = rng.gen_range(0..b.len()); b[i] = b'\n'; } *s = String::from_utf8_lossy(&b).into_owned(); } }
+        // (the symbol file to damage is chosen by name order, not by the map's iteration order: the corpus is a function of the seed)
+        let first_key = { let mut ks: Vec<&String> = symbols.keys().collect(); ks.sort(); ks.first().map(|k| (*k).clone()) };
+        if rng.gen_bool(0.3) { if let Some(s) = first_key.and_then(|k| symbols.get_mut(&k)) { let mut b = s.clone().into_bytes(); if !b.is_empty() { let i = rng.gen_range(0..b.len()); b[i] = b'\n'; } *s = String::from_utf8_lossy(&b).into_owned(); } }
     }
     Item { name: format!("gen{}-{}-{}{}", k, cpu, os, if corrupted { "-corrupt" } else { "" }), cpu: cpu.to_string(), dump, symbols, corrupted }
 }
@@ -318,6 +320,24 @@ fn analysis_items() -> Vec<Item> {
         spec.threads.push(ThreadSpec { id: 1, ctx_ok: true, name: None, ip: 0x400150, sp: 0x20000, stack_base: 0x20000, stack });
         spec.modules = vec![ModuleSpec { base: 0x400000, size: 0x1000, name: "m1".into() }];
         v.push(Item { name: "analysis-long-frame-pointer-chain".into(), cpu: "x86".into(), dump: build(&spec), symbols: HashMap::new(), corrupted: false });
+    }
+    // (1k) two libraries that share a leaf name and carry no identifiers, looked up from two threads; the symbol file of one of them does not
+    //      parse.  The per-module symbol flags of the report must not depend on which look-up finishes first.
+    for (k, broken) in ["/system/lib64/libcodec.so", "/vendor/lib64/libcodec.so"].into_iter().enumerate() {
+        let mut spec = DumpSpec { os: "linux".into(), cpu: "amd64".into(), ..DumpSpec::default() };
+        let mut stack = vec![0u8; 64];
+        stack[..8].copy_from_slice(&0x430150u64.to_le_bytes());
+        spec.threads.push(ThreadSpec { id: 1, ctx_ok: true, name: None, ip: 0x400350, sp: 0x10000, stack_base: 0x10000, stack });
+        spec.threads.push(ThreadSpec { id: 2, ctx_ok: true, name: None, ip: 0x440150, sp: 0x11000, stack_base: 0x11000, stack: vec![0u8; 64] });
+        spec.modules = vec![ModuleSpec { base: 0x400000, size: 0x1000, name: "m1".into() }, ModuleSpec { base: 0x430000, size: 0x1000, name: "/system/lib64/libcodec.so".into() },
+                            ModuleSpec { base: 0x440000, size: 0x1000, name: "/vendor/lib64/libcodec.so".into() }];
+        let mut symbols = HashMap::new();
+        symbols.insert("m1".to_string(), "MODULE Linux x86_64 000 m1\nFUNC 300 100 0 g\n".to_string());
+        for name in ["/system/lib64/libcodec.so", "/vendor/lib64/libcodec.so"] {
+            let text = if name == broken { "MODULE Linux x86_64 000 libcodec.so\nFUNC\n100 100 0 broken\n".to_string() } else { "MODULE Linux x86_64 000 libcodec.so\nFUNC 100 100 0 codec_decode\n".to_string() };
+            symbols.insert(name.to_string(), text);
+        }
+        v.push(Item { name: format!("analysis-same-leaf-one-corrupt-{}", k), cpu: "amd64".into(), dump: build(&spec), symbols, corrupted: false });
     }
     // (1b) the dump header has no time stamp (zeroed here) but the process start time is known: anything
     //      derived from "the time of the crash" must come from the dump, not from the clock.  The name asks the determinism
